@@ -82,13 +82,14 @@ Definition alloc_gen (e : bool -> ev) (c : cls) : M bool := fun s =>
   else Val true (mkA (fail_at s) (S (ctr s)) (c :: live s) (e true :: rlog s) (corrupt s)).
 Definition malloc (c : cls) : M bool := alloc_gen (EvM c) c.
 Definition realloc0 (c : cls) : M bool := alloc_gen (EvR0 c) c.
-(* realloc of an existing block: one block of the class before, one after (moved or not); on failure
-   the old block stays *)
+(* realloc of an existing block: one block of the class before, one after (moved or not); on failure the
+   old block stays.  A realloc of a block that is not allocated is recorded (EvX, corrupt); it does not
+   happen under the invariants of AllocProofs.v *)
 Definition realloc (c : cls) : M bool := fun s =>
-  if has c (live s) then
-    if fails s then Val false (mkA (fail_at s) (S (ctr s)) (live s) (EvR c false :: rlog s) (corrupt s))
-    else Val true (mkA (fail_at s) (S (ctr s)) (live s) (EvR c true :: rlog s) (corrupt s))
-  else Val false (mkA (fail_at s) (S (ctr s)) (live s) (EvX c :: rlog s) true).
+  let bad := negb (has c (live s)) in
+  let l := if bad then EvX c :: rlog s else rlog s in
+  if fails s then Val false (mkA (fail_at s) (S (ctr s)) (live s) (EvR c false :: l) (corrupt s || bad))
+  else Val true (mkA (fail_at s) (S (ctr s)) (live s) (EvR c true :: l) (corrupt s || bad)).
 Definition free (v : via) (c : cls) : M unit := fun s =>
   if has c (live s) then Val tt (mkA (fail_at s) (ctr s) (remove1 c (live s)) (EvF c v :: rlog s) (corrupt s))
   else Val tt (mkA (fail_at s) (ctr s) (live s) (EvX c :: rlog s) true).
@@ -703,33 +704,47 @@ Definition purge_m (v : variant) (main : tabs) (pcb : list cb) (kcb : list callb
 Definition free_shadow_pfx (T : table) : M unit := mdo _ <- tfree_m T ;; free ViaCfg ShPfx.
 Definition free_shadow_spki (v : variant) (Kt : spki_table) : M unit := mdo _ <- release_m bit0 v Kt ;; free ViaCfg ShSpki.
 
-Definition sync_m (v : variant) (reset : bool) (main : tabs) (pdus : list upd) : M sync_out :=
+(* the first part: store the payload PDUs; for an atomic reload create the prefix shadow table and the
+   router-key shadow object.  Every failure here ends the synchronisation at once ("goto cleanup") *)
+Inductive prep :=
+| Early (o : sync_out)                                   (* RTR_ERROR, everything temporary released *)
+| Go (n : nat * nat * nat) (shp : option table).         (* stored; [Some T]: reload, T = prefix shadow, ShSpki allocated *)
+
+Definition sync_prepare_m (reset : bool) (main : tabs) (pdus : list upd) : M prep :=
+  let failed := mkOut false main [] [] in
   mdo z <- store_m pdus 0 0 0 ;;
   let '(stored, n) := z in
-  if negb stored then mdo _ <- free_arrays n ;; ret (mkOut false main [] []) else
+  if negb stored then mdo _ <- free_arrays n ;; ret (Early failed) else
+  if reset then
+    mdo a <- malloc ShPfx ;;
+    if negb a then mdo _ <- free_arrays n ;; ret (Early failed) else
+    mdo zc <- tcopy_except_m (tp main) empty_table me_p ;;
+    let '(Tsh, err) := zc in
+    if err then mdo _ <- free_shadow_pfx Tsh ;; mdo _ <- free_arrays n ;; ret (Early failed) else
+    mdo b <- malloc ShSpki ;;
+    if negb b then mdo _ <- free_shadow_pfx Tsh ;; mdo _ <- free_arrays n ;; ret (Early failed) else
+    ret (Go n (Some Tsh))
+  else ret (Go n None).
+
+Definition sync_rest_m (v : variant) (main : tabs) (pdus : list upd) (n : nat * nat * nat) (shp : option table) : M sync_out :=
+  let reset := match shp with Some _ => true | None => false end in
   let u4 := pfx_updates pdus false in
   let u6 := pfx_updates pdus true in
   let uk := key_updates pdus in
-  (* ---- the update tables: shadow copies for an atomic reload, else the socket's own tables ---- *)
-  mdo zs <- (if reset then
-           mdo a <- malloc ShPfx ;;
-           if negb a then ret (None, None, false) else
-           mdo zc <- tcopy_except_m (tp main) empty_table me_p ;;
-           let '(Tsh, err) := zc in
-           if err then ret (Some Tsh, None, false) else
-           mdo b <- malloc ShSpki ;;
-           if negb b then ret (Some Tsh, None, false) else
-           mdo c <- init_m v ;;
-           if negb c then mdo _ <- free ViaCfg ShSpki ;; ret (Some Tsh, None, false) else   (* repaired code only *)
-           mdo zk <- copy_walk_m hash v (RtrV.Spki.SpkiModel.lst (tk main)) me_k (RtrV.Spki.SpkiModel.spki_init bit0) ;;
-           let '(okc, Ssh) := zk in
-           ret (Some Tsh, Some Ssh, okc)
-         else ret (None, None, true)) ;;
-  let '(shp, shk, ready) := zs in
   (* "cleanup:" for the shadow tables *)
   let drop_shadows (shp : option table) (shk : option spki_table) : M unit :=
       mdo _ <- match shp with Some T => free_shadow_pfx T | None => ret tt end ;;
       match shk with Some Kt => free_shadow_spki v Kt | None => ret tt end in
+  (* ---- the router-key shadow table ---- *)
+  mdo zs <- (match shp with
+             | Some Tsh =>
+               mdo c <- init_m v ;;
+               if negb c then mdo _ <- free ViaCfg ShSpki ;; ret (None, false) else   (* repaired code only *)
+               mdo zk <- copy_walk_m hash v (RtrV.Spki.SpkiModel.lst (tk main)) me_k (RtrV.Spki.SpkiModel.spki_init bit0) ;;
+               let '(okc, Ssh) := zk in ret (Some Ssh, okc)
+             | None => ret (None, true)
+             end) ;;
+  let '(shk, ready) := zs in
   if negb ready then mdo _ <- drop_shadows shp shk ;; mdo _ <- free_arrays n ;; ret (mkOut false main [] []) else
   let T0 := match shp with Some T => T | None => tp main end in
   let S0 := match shk with Some Kt => Kt | None => tk main end in
@@ -774,6 +789,13 @@ Definition sync_m (v : variant) (reset : bool) (main : tabs) (pdus : list upd) :
     mdo _ <- free_arrays n ;;
     ret (mkOut true (mkTabs T3 S1) pcb kcb)
   else finish true T3 S1 c6 ck false.
+
+Definition sync_m (v : variant) (reset : bool) (main : tabs) (pdus : list upd) : M sync_out :=
+  mdo p <- sync_prepare_m reset main pdus ;;
+  match p with
+  | Early o => ret o
+  | Go n shp => sync_rest_m v main pdus n shp
+  end.
 
 End Sync.
 End SyncA.
